@@ -53,6 +53,8 @@ type FuncContract struct {
 	Modifies []ModItem
 	HasMod   bool
 	Ghost    []GhostAssign
+	GhostInit []GhostAssign
+	LoopVar  map[int][]*Clause // increases/decreases
 	Asserts  []*Clause
 	NoInv    map[string]bool // invariants this function opts out of
 	NoPanic  bool            // default true; `maypanic` sets false
@@ -196,7 +198,7 @@ func stripComment(s string) string {
 	return s
 }
 
-var kwRe = regexp.MustCompile(`^\s*(group|func|extern|slot|requires|ensures|modifies|invariant|loop|ghost|pure|lemma|axiom|const|global|assert|mode|maypanic|noinv|use|callslot|trusted|bounded|pkg|end)\b`)
+var kwRe = regexp.MustCompile(`^\s*(group|func|extern|slot|requires|ensures|modifies|invariant|loop|ghostinit|ghost|pure|lemma|axiom|const|global|assert|mode|maypanic|noinv|use|callslot|trusted|bounded|pkg|end)\b`)
 
 var labelRe = regexp.MustCompile(`^\s*([A-Za-z_][A-Za-z0-9_]*)\s*:\s*(.*)$`)
 var propsRe = regexp.MustCompile(`^\s*\[([A-Z0-9, ]+)\]\s*(.*)$`)
@@ -462,8 +464,34 @@ func (c *Contracts) LoadFile(path string) error {
 					}
 					cur.LoopMod[n] = append(cur.LoopMod[n], ModItem{it, e})
 				}
+			case "increases", "decreases":
+				e, err := ParseCExpr(fs[2])
+				if err != nil {
+					return fail(l, "%v", err)
+				}
+				if cur.LoopVar == nil {
+					cur.LoopVar = map[int][]*Clause{}
+				}
+				cur.LoopVar[n] = append(cur.LoopVar[n], &Clause{Kind: fs[1], Label: fs[1], Props: cur.mergeProps, Expr: e, Src: fs[2], Loop: n, Where: l.where})
 			default:
 				return fail(l, "unknown loop clause %q", fs[1])
+			}
+		case "ghostinit":
+			if cur == nil {
+				return fail(l, "ghostinit outside func")
+			}
+			for _, as := range splitTop(rest, ';') {
+				as = strings.TrimSpace(as)
+				if as == "" {
+					continue
+				}
+				i := strings.Index(as, "=")
+				v := strings.TrimPrefix(strings.TrimSpace(as[:i]), "g.")
+				e, err := ParseCExpr(as[i+1:])
+				if err != nil {
+					return fail(l, "%v", err)
+				}
+				cur.GhostInit = append(cur.GhostInit, GhostAssign{v, e, as})
 			}
 		case "ghost":
 			if strings.HasPrefix(rest, "var ") {
